@@ -3,8 +3,10 @@ package rules
 import (
 	"fmt"
 	"go/ast"
+	"go/constant"
 	"go/token"
 	"go/types"
+	"golang.org/x/tools/go/ssa"
 	"os"
 	"sort"
 	"strings"
@@ -349,6 +351,7 @@ func CheckC14(c *Ctx) {
 	run.Floor("report_methods", 40)
 	c.templateShape()
 	c.columnReceives()
+	c.annotationValues()
 	used := map[string]bool{}
 	for _, fi := range reps {
 		for _, r := range c.Results(fi, Opts{Mode: shape.ModeContracts, SkipGamma: reportNeedsNoGamma}) {
@@ -988,4 +991,101 @@ func (c *Ctx) columnReceives() {
 	}
 	run.Count("report_column_types", n)
 	run.Floor("report_column_types", 2)
+}
+
+// annotationValues: the annotation printed for a date is that of the NORMALISED action: the
+// operator ActionsToAnnotations (which the column rule treats as a name) is helper.Map over
+// NormalizeActions of its input with the action's own Annotation, and Annotation maps Sell to
+// "S", Buy to "B" and everything else to the empty string (decided on the three constants).
+func (c *Ctx) annotationValues() {
+	run := c.Run
+	a2a := c.fn("strategy", "", "ActionsToAnnotations")
+	ann := c.fn("strategy", "Action", "Annotation")
+	if a2a == nil || ann == nil {
+		run.Break("anchor missing: strategy.ActionsToAnnotations / Action.Annotation")
+		return
+	}
+	if fn := c.ssaFunc(a2a); fn != nil {
+		got := ssaTerm(fn, new([]string), 0)
+		want := "fn{helper.Map(strategy.NormalizeActions(param#0), fn{method.Annotation(param#0)})}"
+		good := got == want
+		run.Oblige(good)
+		if !good {
+			c.violate("report/annotation", "strategy.ActionsToAnnotations", short(got, 80), a2a.Decl.Pos(), "the annotations of a report are "+got+", specified "+want+": every date must carry the annotation of the normalised action recommended on it (a repeated Buy is printed once)")
+		}
+	} else {
+		run.Break("no SSA function for strategy.ActionsToAnnotations")
+	}
+	afn := c.ssaFunc(ann)
+	for _, tc := range []struct {
+		name string
+		val  int64
+		want string
+	}{{"Sell", -1, "S"}, {"Hold", 0, ""}, {"Buy", 1, "B"}} {
+		got, decided := "undecided", false
+		if afn != nil && len(afn.Params) == 1 {
+			if v, ok := evalSSAOnInt(afn, tc.val); ok {
+				got, decided = v, true
+			}
+		}
+		good := decided && got == fmt.Sprintf("%q", tc.want)
+		run.Oblige(good)
+		if !good {
+			c.violate("report/annotation", "strategy.(Action).Annotation", tc.name, ann.Decl.Pos(), fmt.Sprintf("the annotation of %s is %s, specified %q", tc.name, got, tc.want))
+		}
+	}
+}
+
+// evalSSAOnInt follows the control flow of a one-parameter, loop-free function whose branches
+// compare the parameter with constants, for the parameter value k, and returns the constant it
+// returns (a finite decision table read off the SSA form).
+func evalSSAOnInt(fn *ssa.Function, k int64) (string, bool) {
+	if len(fn.Blocks) == 0 {
+		return "", false
+	}
+	val := func(v ssa.Value) (constant.Value, bool) {
+		switch x := v.(type) {
+		case *ssa.Parameter:
+			return constant.MakeInt64(k), true
+		case *ssa.Const:
+			if x.Value != nil {
+				return x.Value, true
+			}
+		}
+		return nil, false
+	}
+	b := fn.Blocks[0]
+	for steps := 0; steps < 64; steps++ {
+		last := b.Instrs[len(b.Instrs)-1]
+		switch t := last.(type) {
+		case *ssa.Return:
+			if len(t.Results) != 1 {
+				return "", false
+			}
+			if cv, ok := val(t.Results[0]); ok {
+				return cv.ExactString(), true
+			}
+			return "", false
+		case *ssa.Jump:
+			b = b.Succs[0]
+		case *ssa.If:
+			bo, ok := t.Cond.(*ssa.BinOp)
+			if !ok {
+				return "", false
+			}
+			l, ok1 := val(bo.X)
+			r, ok2 := val(bo.Y)
+			if !ok1 || !ok2 {
+				return "", false
+			}
+			if constant.Compare(l, bo.Op, r) {
+				b = b.Succs[0]
+			} else {
+				b = b.Succs[1]
+			}
+		default:
+			return "", false
+		}
+	}
+	return "", false
 }
